@@ -104,6 +104,11 @@ func newReadOnlySegment(basePath string, baseOffset int64) (ReadOnlySegment, err
 		}
 	}
 
+	if len(ms.idx) == 0 {
+		// A closed segment holds at least one entry: nothing valid could be recovered from the txn file
+		return nil, errors.Wrapf(codec.ErrDataCorrupted, "no valid entries in segment txn file %s", ms.c.txnPath)
+	}
+
 	ms.lastOffset = ms.c.baseOffset + int64(len(ms.idx)/4-1)
 
 	// recover the last crc
